@@ -50,19 +50,18 @@ func parseUrlPath(pathStr string, m meta.Definition) ([]*Path, error) {
 		if !hasDefs {
 			return nil, fmt.Errorf("%w. %s has nothing below it to find %s", fc.NotFoundError, p.Meta.Ident(), ident)
 		}
-		seg.Meta = meta.Find(parentDefs, ident)
-		if seg.Meta == nil {
-			// check for fully qualified ident
-			if colon := strings.IndexRune(ident, ':'); colon > 0 {
-				module := ident[:colon]
-				ident = ident[colon+1:]
-				potential := meta.Find(parentDefs, ident)
-				if potential != nil {
-					if meta.OriginalModule(potential).Ident() == module {
-						seg.Meta = potential
-					}
+		if colon := strings.IndexRune(ident, ':'); colon > 0 {
+			// fully qualified ident: the name (or, as always tolerated at the top, the prefix)
+			// of the module the node belongs to
+			module := ident[:colon]
+			ident = ident[colon+1:]
+			if potential := meta.Find(parentDefs, ident); potential != nil {
+				if owner := meta.OriginalModule(potential); owner.Ident() == module || owner.Prefix() == module {
+					seg.Meta = potential
 				}
 			}
+		} else {
+			seg.Meta = meta.Find(parentDefs, ident)
 		}
 		if seg.Meta == nil {
 			return nil, fmt.Errorf("%w. %s not found in %s", fc.NotFoundError, ident, p.Meta.Ident())
